@@ -33,7 +33,12 @@ RULE = (
     " 25% of the RewritingContext cases hand over the caller's own"
     " Function objects after the function tables were dropped. 4% of the"
     " modules hold a zero-sized code block (a scope that designates one"
-    " makes apply() raise: F51)."
+    " makes apply() raise: F51). One case in ten registers the same scope"
+    " OBJECTS in two successive contexts (the first context's patches end"
+    " in calls, so exit blocks change) and compares the bytes with a run"
+    " whose second context gets equal new objects; one in 25 designates"
+    " a block capstone decodes only in part (EXIT must be refused,"
+    " ENTRY placed at offset 0)."
 )
 ASSUMPTIONS = [
     "exit blocks are derived from the input listing's control flow (return, or a non-call edge leaving the function)",
@@ -44,9 +49,27 @@ REQUIRED_COUNTERS = ["applications_compared", "contexts_compared",
 
 
 def gen_case(rng, tier, index):
-    g = gen_rewrite.Gen(rng, tier, empty_blocks_p=0.04)
+    if index % 25 == 24:
+        # a block that capstone decodes only in part: positions that need the
+        # block's instructions must be refused, never guessed
+        g = gen_rewrite.Gen(rng, tier, isa=("x64", "elf"), empty_blocks_p=0)
+        case = g.module()
+        case["edits"] = []
+        cands = [b["id"] for b in g.code_blocks if len(b["items"]) >= 2]
+        case.update(w="undecodable", passes=[],
+                    block=rng.choice(cands) if cands else None,
+                    pos=rng.choice(["ENTRY", "EXIT", "ANYWHERE"]),
+                    scope=rng.choice(["single", "allblocks"]))
+        return case
+    again = index % 10 == 9
+    g = gen_rewrite.Gen(rng, tier, empty_blocks_p=0 if again else 0.04)
     case = g.module()
     case["edits"] = []
+    if again:
+        # the same scope objects serve two successive contexts (scopes are
+        # values: what a scope designates is a matter of the module as it is
+        # when the context applies)
+        case["w"] = "again"
     if rng.random() < 0.15:
         case["funcs"] = []
         case["no_function_tables"] = True
@@ -100,11 +123,175 @@ def gen_case(rng, tier, index):
             regs.append({"scope": sc,
                          "body": [rng.choice(gen_rewrite.ORD_KEYS)
                                   for _ in range(rng.randrange(0, 3))]})
+            if again and fnames and rng.random() < 0.6:
+                # ... and the first context's patches change which block
+                # ends a function: they end in a call
+                regs[-1]["calls"] = rng.choice(fnames)
+        if again:
+            regs = [r for r in regs if r["scope"]["kind"] != "single"]
         passes.append(regs)
     case["passes"] = passes
     case["driver"] = rng.choice(["ctx", "pm"])
     case["own_function_analysis"] = rng.random() < 0.25
     return case
+
+
+def make_scope(sc):
+    from gtirb_rewriting import (AllBlocksScope, AllFunctionsScope,
+                                 BlockPosition, FunctionPosition)
+    from gtirb_rewriting.scopes import ENTRYPOINT_NAME, MAIN_NAME
+
+    def names(filt):
+        if filt is None:
+            return None
+        out = set()
+        for f in filt:
+            if f[0] == "lit":
+                out.add(f[1])
+            elif f[0] == "re":
+                out.add(re.compile(f[1]))
+            elif f[0] == "main":
+                out.add(MAIN_NAME)
+            else:
+                out.add(ENTRYPOINT_NAME)
+        return out
+    pos = getattr(BlockPosition, sc["pos"])
+    if sc["kind"] == "allblocks":
+        return AllBlocksScope(pos, names(sc["exclude"]))
+    return AllFunctionsScope(getattr(FunctionPosition, sc["fpos"]),
+                             pos, names(sc["functions"]))
+
+
+def run_undecodable(case):
+    from gtirb_rewriting import (AllBlocksScope, BlockPosition, Constraints,
+                                 Patch, RewritingContext, SingleBlockScope)
+    ctr = {"undecodable_block_probes": 0}
+    if case["block"] is None:
+        return {"sig": None, "violations": [], "counters": ctr}
+    bu, lst0 = irbuild.build(case, random.Random("uuid:0"))
+    m = bu.module
+    blk = bu.blocks[case["block"]]
+    offs = lst0.item_offsets(case["block"])
+    bi = blk.byte_interval
+    # the first instruction becomes bytes that are no instruction in 64-bit
+    # mode; the rest of the block (its terminator included) stays
+    raw = bytearray(bi.contents)
+    for k in range(blk.offset, blk.offset + offs[1]):
+        raw[k] = 0x06
+    bi.contents = bytes(raw)
+    for k in list(bi.symbolic_expressions):
+        if blk.offset <= k < blk.offset + offs[1]:
+            del bi.symbolic_expressions[k]
+    before = bytes(bi.contents)
+    fns = gtirb_functions.Function.build_functions(m) \
+        if "functionEntries" in m.aux_data else []
+    ctx = RewritingContext(m, fns)
+    pos = getattr(BlockPosition, case["pos"])
+    sc = SingleBlockScope(blk, pos) if case["scope"] == "single" \
+        else AllBlocksScope(pos)
+    text = rewrite.patch_text("x64", [{"k": "mark", "imm": mark_imm(
+        case, 1, 0)}])
+    ctx.register_insert(sc, Patch.from_function(
+        lambda c: text, Constraints()))
+    ctr["undecodable_block_probes"] = 1
+    viol = []
+    try:
+        ctx.apply()
+        accepted = True
+    except Exception:  # noqa
+        accepted = False
+    if case["pos"] in ("ENTRY", "ANYWHERE"):
+        # needs no instructions: the patch stands in front of the block
+        # (offset 0 is an instruction boundary whatever follows; ANYWHERE
+        # may also be refused)
+        mk = vocab.encode("x64", "mark", mark_imm(case, 1, 0))
+        now = bytes(bi.contents)
+        at = now.find(mk)
+        if not accepted:
+            if case["pos"] == "ENTRY":
+                viol.append({"key": "scope:undecodable-block:entry-refused",
+                             "msg": ""})
+        elif case["scope"] == "single" and not (
+                now[:blk.offset] == before[:blk.offset] and
+                at == blk.offset):
+            viol.append({"key": "scope:undecodable-block:misplaced:" +
+                                case["pos"],
+                         "msg": f"marker at {at}, block at {blk.offset}"})
+    elif accepted:
+        viol.append({
+            "key": "scope:undecodable-block:position-guessed:" + case["pos"],
+            "msg": bytes(bi.contents).hex()})
+    return {"sig": f"undecodable:{case['scope']}:{case['pos']}",
+            "violations": viol, "counters": ctr}
+
+
+def run_again(case):
+    """round 1 and round 2 register the same registrations; once round 2
+    re-uses round 1's scope objects, once it builds equal new ones: the two
+    modules must be the same"""
+    from gtirb_rewriting import Constraints, Patch, RewritingContext
+    from gtirb_rewriting.rewriting import UnresolvableScopeError
+    isa = case["isa"]
+    flat = [r for p in case["passes"] for r in p]
+    ctr = {"contexts_compared": 0, "registrations": 0,
+           "applications_compared": 0, "scope_objects_reused": 0}
+    if not flat:
+        return {"sig": None, "violations": [], "counters": ctr}
+
+    def patch(r, reg, rnd):
+        lines = [{"k": "mark", "imm": mark_imm(case, r + 32 * rnd, 0)}] + [
+            {"k": k} for k in reg["body"]]
+        if reg.get("calls") and rnd == 0:
+            lines.append({"k": "call", "t": reg["calls"]})
+        text = rewrite.patch_text(isa, lines)
+        return Patch.from_function(lambda ctx, text=text: text,
+                                   Constraints())
+
+    def run(reuse):
+        bu, _ = irbuild.build(case, random.Random("uuid:0"))
+        m = bu.module
+        scopes = [make_scope(reg["scope"]) for reg in flat]
+        for rnd in (0, 1):
+            fns = gtirb_functions.Function.build_functions(m) \
+                if "functionEntries" in m.aux_data else []
+            ctx = RewritingContext(m, fns)
+            for r, reg in enumerate(flat):
+                sc = scopes[r] if (reuse or rnd == 0) else make_scope(
+                    reg["scope"])
+                try:
+                    ctx.register_insert(sc, patch(r, reg, rnd))
+                except UnresolvableScopeError:
+                    pass
+            ctx.apply()
+        # where the patches landed: the bytes of every original interval
+        # (the CFG of the second round also depends on where the first
+        # round's final re-layout put unconnected intervals, F34)
+        return [[bytes(bi.contents).hex() for bi in row]
+                for row in bu.intervals]
+    out = []
+    for reuse in (True, False):
+        try:
+            out.append(("ok", run(reuse)))
+        except Exception as x:  # noqa
+            out.append(("exc", type(x).__name__))
+    viol = []
+    ctr["registrations"] = 2 * len(flat)
+    ctr["scope_objects_reused"] = len(flat)
+    if out[0] != out[1]:
+        viol.append({
+            "key": "scope:re-used-scope-objects-give-another-module",
+            "msg": f"{out[0][0]} / {out[1][0]} " + (
+                out[0][1] if out[0][0] == "exc" else "") + " " + (
+                out[1][1] if out[1][0] == "exc" else "")})
+    elif out[0][0] == "ok":
+        ctr["contexts_compared"] = 2
+        ctr["applications_compared"] = 1
+    sig = None
+    if out[0][0] == "ok":
+        sig = "again:" + ",".join(sorted(
+            f"{r['scope']['kind']}:{r['scope']['pos']}:"
+            f"{int(bool(r.get('calls')))}" for r in flat))
+    return {"sig": sig, "violations": viol, "counters": ctr}
 
 
 def match_names(case, lst, fname, filt):
@@ -172,6 +359,10 @@ def run_case(case):
                                  RewritingContext, SingleBlockScope)
     from gtirb_rewriting.rewriting import UnresolvableScopeError
     from gtirb_rewriting.scopes import ENTRYPOINT_NAME, MAIN_NAME
+    if case.get("w") == "again":
+        return run_again(case)
+    if case.get("w") == "undecodable":
+        return run_undecodable(case)
     viol = []
     ctr = {"applications_compared": 0, "contexts_compared": 0,
            "registrations": 0, "expected_refusals": 0,
